@@ -221,6 +221,14 @@ def play(t) -> list:
     return body * n
 
 
+def play_diff(a, b) -> str:
+    """short description of two waveform sequences that differ"""
+    k = 0
+    while k < len(a) and k < len(b) and a[k] == b[k]:
+        k += 1
+    return 'lengths %d / %d, first difference at index %d: %s / %s' % (len(a), len(b), k, a[k:k + 6], b[k:k + 6])
+
+
 def has_zero_vol(t) -> bool:
     if t[2] == 'v' and int(t[1]) == 0:
         return True
@@ -508,8 +516,8 @@ def run_case_impl(ctx, case: Case, pipelines=PIPELINES):
                 if has_zero_vol(upd) or not same_shape(upd, fresh):
                     ctx.count(key + ':zero-count-step')
                     if play(upd) != play(fresh):
-                        case.defer('updated program plays %s, fresh instantiation plays %s; %s'
-                                      % (play(upd)[:40], play(fresh)[:40], where), case.record(pipeline, step=j))
+                        case.defer('updated program and fresh instantiation play different waveform sequences (%s); %s'
+                                   % (play_diff(play(upd), play(fresh)), where), case.record(pipeline, step=j))
                 elif upd != fresh:
                     case.defer('updated program %s differs from fresh instantiation %s; %s'
                                   % (sx(upd), sx(fresh), where), case.record(pipeline, step=j))
@@ -524,9 +532,9 @@ def run_case_impl(ctx, case: Case, pipelines=PIPELINES):
                 if zero:
                     ctx.count(key + ':zero-count-step')
                     if tabor_play(upd) != tabor_play(fresh):
-                        case.defer('updated tables play %s, freshly compiled tables play %s; %s'
-                                      % (tabor_play(upd)[:40], tabor_play(fresh)[:40], where),
-                                      case.record(pipeline, step=j))
+                        case.defer('updated and freshly compiled tables play different waveform sequences (%s); %s'
+                                   % (play_diff(tabor_play(upd), tabor_play(fresh)), where),
+                                   case.record(pipeline, step=j))
                 elif upd != fresh:
                     case.defer('updated instrument tables %s differ from freshly compiled tables %s; %s'
                                   % (upd, fresh, where), case.record(pipeline, step=j))
